@@ -376,7 +376,7 @@ func (l *List) Inspect() string {
 // Remove eliminates the value form the element in the pos index
 // the element replaces with a nil value.
 func (l *List) Remove(pos int64) Object {
-	if int64(len(l.Value)) > pos {
+	if pos >= 0 && pos < int64(len(l.Value)) {
 		l.Value[pos] = nil
 		l.dirty = true
 
@@ -423,6 +423,11 @@ func (l *List) ToDynamoDB() types.Item {
 
 // Get returns the contained object in the position
 func (l *List) Get(position int64) Object {
+	// an element that is not there is undefined, like a missing attribute
+	if position < 0 || position >= int64(len(l.Value)) {
+		return UNDEFINED
+	}
+
 	obj := l.Value[position]
 	if obj == nil {
 		return UNDEFINED
